@@ -38,6 +38,7 @@ Fixpoint val_eqb (a b : val) : bool :=
   | VUuid x, VUuid y => text_eqb x y
   | VDecimal x, VDecimal y => text_eqb x y
   | VDate o s, VDate o' s' => Z.eqb o o' && text_eqb s s'
+  | VDateTime o s, VDateTime o' s' => Z.eqb o o' && text_eqb s s'
   | VExt c p, VExt c' p' => N.eqb c c' && val_eqb p p'
   | _, _ => false
   end.
